@@ -25,6 +25,13 @@ type vInj struct {
 }
 
 func (j *vInj) MaybeError(op gvfs.Op) error {
+	if vForeign() {
+		// native replays only: file operations of Tan's background
+		// delete-obsolete-files goroutine.  The executor does not start that
+		// worker (the harness calls its body at chosen points), so its operations
+		// are neither counted by the crash clock nor failed by the injector.
+		return nil
+	}
 	if op == gvfs.OpSync {
 		if !j.crashed && j.crashAt >= 0 && j.syncs == j.crashAt {
 			j.crashed = true
@@ -112,6 +119,24 @@ func vTanObsolete(l *LogDB) int {
 		return nil
 	})
 	return n
+}
+
+// vTanVersionSig changes whenever a log file leaves a version set or a new
+// MANIFEST is started, i.e. whenever something becomes obsolete.  (Unlike the
+// obsolete lists themselves it does not depend on how far the background
+// worker of a native run has got.)
+func vTanVersionSig(l *LogDB) uint64 {
+	sig := uint64(0)
+	l.collection.iterate(func(d *db) error {
+		d.mu.Lock()
+		for fn := range d.mu.versions.currentVersion().files {
+			sig += uint64(fn)*1000003 + 17
+		}
+		sig += uint64(d.mu.versions.manifestFileNum) * 7919
+		d.mu.Unlock()
+		return nil
+	})
+	return sig
 }
 
 // bgDelete runs what the background worker does when notified.
@@ -392,9 +417,9 @@ func VHarness_C09_TanModel() {
 	}
 	steps := 2 + vTier()
 	for i := 0; i < steps; i++ {
-		nfiles := vTanObsolete(l)
+		sig := vTanVersionSig(l)
 		vAssert(vTanStep(l, ms, vOpCount) == nil, "operation-ok")
-		if vTanObsolete(l) != nfiles && vBool("bgDelete") {
+		if vTanVersionSig(l) != sig && vBool("bgDelete") {
 			vTanBgDelete(l)
 		}
 	}
@@ -404,7 +429,7 @@ func VHarness_C09_TanModel() {
 	vAssert(l.Close() == nil, "close-ok")
 	l, err = env.open()
 	vAssert(err == nil, "reopen-ok")
-	if vTanObsolete(l) > 0 && vBool("bgDeleteAfterReopen") {
+	if vBool("bgDeleteAfterReopen") {
 		vTanBgDelete(l)
 	}
 	vReach("reopened")
@@ -417,7 +442,12 @@ func VHarness_C09_TanModel() {
 // C09 (Tan, multiplexed): removing one replica's data must leave the other
 // replica of the shared db intact.  (Known finding F6 on the pinned tree:
 // removeAllLocked drops every older log file of the shared db.)
-//vcheck: reach=done workers=8
+// selftest=off: on the pinned tree the files of the other replica leave the
+// version set here (F6); whether they are already gone when the harness reads
+// depends, in a native run, on how far Tan's background delete worker has got,
+// which the executor does not start - so the native rerun of an executor path
+// that "passes because nothing was deleted yet" is not a translator check.
+//vcheck: reach=done workers=8 selftest=off
 func VHarness_C09_TanMultiplexedRemoveNode() {
 	mem := gvfs.NewStrictMem()
 	env := &vTanEnv{mem: mem, inj: &vInj{mem: mem, crashAt: -1, failAt: -1}}
@@ -501,7 +531,16 @@ func VHarness_C09_TanCompaction() {
 	ms[0].apply(ua)
 	ms[1].apply(ub)
 	wrote(2)
-	files0 := len(d.mu.versions.currentVersion().files)
+	// every log file that was ever part of the version set
+	seen := map[fileNum]bool{}
+	note := func() {
+		d.mu.Lock()
+		for fn := range d.mu.versions.currentVersion().files {
+			seen[fn] = true
+		}
+		d.mu.Unlock()
+	}
+	note()
 	steps := 6 + vTier()
 	for i := 0; i < steps; i++ {
 		op := vChoose("cop", 5)
@@ -528,11 +567,22 @@ func VHarness_C09_TanCompaction() {
 			m.compactedTo = k
 		}
 		wrote(1)
+		note()
 	}
 	// paths on which no file left the version set are covered by TanModel
-	vAssume(len(d.mu.versions.obsoleteTables) > 0)
+	// (decided from the version set itself, not from the list of files waiting
+	// for the background worker, which a native run empties at its own pace)
+	dropped := false
+	d.mu.Lock()
+	cur := d.mu.versions.currentVersion().files
+	for fn := range seen {
+		if _, ok := cur[fn]; !ok {
+			dropped = true
+		}
+	}
+	d.mu.Unlock()
+	vAssume(dropped)
 	vReach("file-dropped")
-	_ = files0
 	vTanBgDelete(l)
 	for _, m := range ms {
 		vAssert(vTanDiff(l, m) == "", "after-compaction-"+vTanDiff(l, m))
